@@ -1,7 +1,7 @@
 package c10
 
 // Operations of a C10 history, their execution on the real keepers / msg
-// servers / EVM, and the generators.
+// servers / EVM / governance proposal handler, and the generators.
 
 import (
 	. "kavaverif/lib"
@@ -12,21 +12,49 @@ import (
 	sdkmath "cosmossdk.io/math"
 	sdk "github.com/cosmos/cosmos-sdk/types"
 	banktypes "github.com/cosmos/cosmos-sdk/x/bank/types"
+	govv1beta1 "github.com/cosmos/cosmos-sdk/x/gov/types/v1beta1"
+	paramproposal "github.com/cosmos/cosmos-sdk/x/params/types/proposal"
 	"github.com/ethereum/go-ethereum/common"
 
 	evmutiltypes "github.com/kava-labs/kava/x/evmutil/types"
 )
 
+// praw: one entry of a proposed EnabledConversionPairs value, possibly malformed
+type praw struct {
+	K string `json:"k"` // ctr | zero | short (19 bytes)
+	C int    `json:"c"` // contract id (>= noCodeBase: an address without code)
+	D int    `json:"d"` // denom index; negative: the (-1-d)-th invalid denom string
+}
+
+// traw: one entry of a proposed AllowedCosmosDenoms value, possibly malformed
+type traw struct {
+	D    int  `json:"d"`    // denom index; negative: an invalid denom string
+	Name bool `json:"name"` // name not empty
+	Sym  int  `json:"sym"`  // the symbol is "k"+denoms[sym]; -1: empty
+	Dec  bool `json:"dec"`  // decimals <= 255
+}
+
+var invalidDenoms = []string{"1x", "a", "", "has space", "x!y"}
+
+func denomString(d int) string {
+	if d >= 0 {
+		return denoms[d]
+	}
+	return invalidDenoms[(-1-d)%len(invalidDenoms)]
+}
+
 type op struct {
-	Kind   string `json:"kind"` // c2e | e2c | cos2e | e2cos | xfer | mint | send | params
+	Kind   string `json:"kind"` // c2e | e2c | cos2e | e2cos | xfer | mint | send | params | approve | xferfrom | tx
 	Direct bool   `json:"direct,omitempty"`
-	I      int    `json:"i"` // initiator / from
-	R      int    `json:"r"` // receiver / to
-	D      int    `json:"d"` // denom index (c2e, cos2e, e2cos, send)
-	C      int    `json:"c"` // contract id (e2c, xfer, mint)
-	X      string `json:"x"` // amount
-	En     []bool `json:"en,omitempty"`
-	Al     []bool `json:"al,omitempty"`
+	I      int    `json:"i"`           // initiator / sender / owner (approve) / spender (xferfrom)
+	R      int    `json:"r"`           // receiver / to / spender (approve)
+	F      int    `json:"f,omitempty"` // from (xferfrom)
+	D      int    `json:"d"`           // denom index (c2e, cos2e, e2cos, send)
+	C      int    `json:"c"`           // contract id (e2c, xfer, mint, approve, xferfrom)
+	X      string `json:"x"`           // amount
+	Ps     []praw `json:"ps,omitempty"`
+	Ts     []traw `json:"ts,omitempty"`
+	Sub    []op   `json:"sub,omitempty"` // tx: the messages of one transaction
 }
 
 func (o op) amount() *big.Int {
@@ -37,18 +65,18 @@ func (o op) amount() *big.Int {
 	return x
 }
 
-var u256 = new(big.Int).Lsh(big.NewInt(1), 256)
-
-func dummyContract(c int) evmutiltypes.InternalEVMAddress {
-	return evmutiltypes.NewInternalEVMAddress(common.BytesToAddress([]byte{0xde, 0xad, byte(c)}))
-}
-
-func (w *world) contractAddr(c int) evmutiltypes.InternalEVMAddress {
-	if c >= 0 && c < len(w.ctr) {
-		return w.ctr[c]
+// msgs: the operations a history step executes atomically
+func (o op) msgs() []op {
+	if o.Kind == "tx" {
+		return o.Sub
 	}
-	return dummyContract(c)
+	return []op{o}
 }
+
+func isConv(k string) bool { return k == "c2e" || k == "e2c" || k == "cos2e" || k == "e2cos" }
+
+var u256 = new(big.Int).Lsh(big.NewInt(1), 256)
+var maxU256 = new(big.Int).Sub(u256, big.NewInt(1))
 
 func iaddr(a common.Address) evmutiltypes.InternalEVMAddress {
 	return evmutiltypes.NewInternalEVMAddress(a)
@@ -58,98 +86,174 @@ func iaddr(a common.Address) evmutiltypes.InternalEVMAddress {
 // message cannot carry anything else.
 func representable(x *big.Int) bool { return x.BitLen() <= 256 }
 
-// exec runs one operation atomically (cached context, committed on success).
-func (w *world) exec(o op) (Class, error) {
-	x := o.amount()
-	isConv := o.Kind == "c2e" || o.Kind == "e2c" || o.Kind == "cos2e" || o.Kind == "e2cos"
-	if isConv && !representable(x) {
-		return ClassErr, fmt.Errorf("amount does not fit sdkmath.Int")
+// route delivers a message the way baseapp does: ValidateBasic, then the handler the
+// module registered with the app's MsgServiceRouter.
+func (w *world) route(ctx sdk.Context, msg sdk.Msg) error {
+	if err := msg.ValidateBasic(); err != nil {
+		return err
 	}
-	enBefore, alBefore := append([]bool(nil), w.enabled...), append([]bool(nil), w.allowed...)
-	cls, err := Atomically(w.ctx, func(ctx sdk.Context) error {
-		gctx := sdk.WrapSDKContext(ctx)
-		switch o.Kind {
-		case "c2e":
-			coin := sdk.Coin{Denom: denoms[o.D], Amount: sdkmath.NewIntFromBigInt(x)}
-			if o.Direct {
-				return w.k.ConvertCoinToERC20(ctx, w.addrs[o.I], iaddr(w.eaddrs[o.R]), coin)
-			}
-			msg := evmutiltypes.MsgConvertCoinToERC20{Initiator: w.addrs[o.I].String(), Receiver: w.eaddrs[o.R].Hex(), Amount: &coin}
-			if err := msg.ValidateBasic(); err != nil {
-				return err
-			}
-			_, err := w.ms.ConvertCoinToERC20(gctx, &msg)
-			return err
-		case "e2c":
-			amt := sdkmath.NewIntFromBigInt(x)
-			if o.Direct {
-				return w.k.ConvertERC20ToCoin(ctx, iaddr(w.eaddrs[o.I]), w.addrs[o.R], w.contractAddr(o.C), amt)
-			}
-			msg := evmutiltypes.MsgConvertERC20ToCoin{Initiator: w.eaddrs[o.I].Hex(), Receiver: w.addrs[o.R].String(),
-				KavaERC20Address: w.contractAddr(o.C).Hex(), Amount: amt}
-			if err := msg.ValidateBasic(); err != nil {
-				return err
-			}
-			_, err := w.ms.ConvertERC20ToCoin(gctx, &msg)
-			return err
-		case "cos2e":
-			coin := sdk.Coin{Denom: denoms[o.D], Amount: sdkmath.NewIntFromBigInt(x)}
-			if o.Direct {
-				return w.k.ConvertCosmosCoinToERC20(ctx, w.addrs[o.I], iaddr(w.eaddrs[o.R]), coin)
-			}
-			msg := evmutiltypes.MsgConvertCosmosCoinToERC20{Initiator: w.addrs[o.I].String(), Receiver: w.eaddrs[o.R].Hex(), Amount: &coin}
-			if err := msg.ValidateBasic(); err != nil {
-				return err
-			}
-			_, err := w.ms.ConvertCosmosCoinToERC20(gctx, &msg)
-			return err
-		case "e2cos":
-			coin := sdk.Coin{Denom: denoms[o.D], Amount: sdkmath.NewIntFromBigInt(x)}
-			if o.Direct {
-				return w.k.ConvertCosmosCoinFromERC20(ctx, iaddr(w.eaddrs[o.I]), w.addrs[o.R], coin)
-			}
-			msg := evmutiltypes.MsgConvertCosmosCoinFromERC20{Initiator: w.eaddrs[o.I].Hex(), Receiver: w.addrs[o.R].String(), Amount: &coin}
-			if err := msg.ValidateBasic(); err != nil {
-				return err
-			}
-			_, err := w.ms.ConvertCosmosCoinFromERC20(gctx, &msg)
-			return err
-		case "xfer":
-			// a plain ERC20 transfer by the holder (msg.sender = from)
-			_, err := w.k.CallEVM(ctx, evmutiltypes.ERC20MintableBurnableContract.ABI, w.eaddrs[o.I], w.contractAddr(o.C), "transfer", w.eaddrs[o.R], x)
-			return err
-		case "mint":
-			// the owner of an EVM-native token mints; the wrappers are owned by the module,
-			// so nobody else can mint them (the attempt comes from user 0)
-			from := evmutiltypes.ModuleEVMAddress
-			if o.C >= nPair && o.C < len(w.ctr) {
-				from = w.eaddrs[0]
-			}
-			_, err := w.k.CallEVM(ctx, evmutiltypes.ERC20MintableBurnableContract.ABI, from, w.contractAddr(o.C), "mint", w.eaddrs[o.R], x)
-			return err
-		case "send":
-			msg := banktypes.MsgSend{FromAddress: w.addrs[o.I].String(), ToAddress: w.addrs[o.R].String(),
-				Amount: sdk.Coins{sdk.Coin{Denom: denoms[o.D], Amount: sdkmath.NewIntFromBigInt(x)}}}
-			if err := msg.ValidateBasic(); err != nil {
-				return err
-			}
-			_, err := w.bankMs.Send(gctx, &msg)
-			return err
-		case "params":
-			ctx0 := w.ctx
-			w.ctx = ctx
-			w.enabled = append([]bool(nil), o.En...)
-			w.allowed = padBools(o.Al)
-			w.setParams()
-			w.ctx = ctx0
+	h := w.tApp.MsgServiceRouter().Handler(msg)
+	if h == nil {
+		panic(fmt.Sprintf("no handler for %T", msg))
+	}
+	_, err := h(ctx, msg)
+	return err
+}
+
+func (w *world) rawPairs(ps []praw) evmutiltypes.ConversionPairs {
+	out := evmutiltypes.ConversionPairs{}
+	for _, p := range ps {
+		var bz []byte
+		switch p.K {
+		case "zero":
+			bz = make([]byte, 20)
+		case "short":
+			bz = w.contractAddr(p.C).Bytes()[:19]
+		default:
+			bz = w.contractAddr(p.C).Bytes()
+		}
+		out = append(out, evmutiltypes.ConversionPair{KavaERC20Address: bz, Denom: denomString(p.D)})
+	}
+	return out
+}
+
+func rawToks(ts []traw) evmutiltypes.AllowedCosmosCoinERC20Tokens {
+	out := evmutiltypes.AllowedCosmosCoinERC20Tokens{}
+	for _, t := range ts {
+		tok := evmutiltypes.AllowedCosmosCoinERC20Token{CosmosDenom: denomString(t.D), Decimals: 6}
+		if t.Name {
+			tok.Name = "Kava-wrapped " + denomString(t.D)
+		}
+		if t.Sym >= 0 {
+			tok.Symbol = "k" + denoms[t.Sym]
+		}
+		if !t.Dec {
+			tok.Decimals = 256
+		}
+		out = append(out, tok)
+	}
+	return out
+}
+
+// proposeParams runs a parameter-change proposal for both keys of the evmutil subspace through
+// the handler governance executes (x/params proposal handler -> Subspace.Update -> the validators
+// of ParamSetPairs).
+func (w *world) proposeParams(ctx sdk.Context, ps []praw, ts []traw) error {
+	amino := w.tApp.LegacyAmino()
+	pj, err := amino.MarshalJSON(w.rawPairs(ps))
+	if err != nil {
+		return err
+	}
+	tj, err := amino.MarshalJSON(rawToks(ts))
+	if err != nil {
+		return err
+	}
+	var content govv1beta1.Content = paramproposal.NewParameterChangeProposal("pairs", "change", []paramproposal.ParamChange{
+		{Subspace: evmutiltypes.ModuleName, Key: string(evmutiltypes.KeyEnabledConversionPairs), Value: string(pj)},
+		{Subspace: evmutiltypes.ModuleName, Key: string(evmutiltypes.KeyAllowedCosmosDenoms), Value: string(tj)},
+	})
+	if err := content.ValidateBasic(); err != nil {
+		return err
+	}
+	h := w.tApp.GetGovKeeper().LegacyRouter().GetRoute(content.ProposalRoute())
+	return h(ctx, content)
+}
+
+// execMsg runs one message / call on the given (cached) context.
+func (w *world) execMsg(ctx sdk.Context, o op) error {
+	x := o.amount()
+	if isConv(o.Kind) && !representable(x) {
+		return fmt.Errorf("amount does not fit sdkmath.Int")
+	}
+	erc := evmutiltypes.ERC20MintableBurnableContract.ABI
+	switch o.Kind {
+	case "c2e":
+		coin := sdk.Coin{Denom: denoms[o.D], Amount: sdkmath.NewIntFromBigInt(x)}
+		if o.Direct {
+			return w.k.ConvertCoinToERC20(ctx, w.addrs[o.I], iaddr(w.eaddrs[o.R]), coin)
+		}
+		return w.route(ctx, &evmutiltypes.MsgConvertCoinToERC20{Initiator: w.addrs[o.I].String(), Receiver: w.eaddrs[o.R].Hex(), Amount: &coin})
+	case "e2c":
+		amt := sdkmath.NewIntFromBigInt(x)
+		if o.Direct {
+			return w.k.ConvertERC20ToCoin(ctx, iaddr(w.eaddrs[o.I]), w.addrs[o.R], w.contractAddr(o.C), amt)
+		}
+		return w.route(ctx, &evmutiltypes.MsgConvertERC20ToCoin{Initiator: w.eaddrs[o.I].Hex(), Receiver: w.addrs[o.R].String(),
+			KavaERC20Address: w.contractAddr(o.C).Hex(), Amount: amt})
+	case "cos2e":
+		coin := sdk.Coin{Denom: denoms[o.D], Amount: sdkmath.NewIntFromBigInt(x)}
+		if o.Direct {
+			return w.k.ConvertCosmosCoinToERC20(ctx, w.addrs[o.I], iaddr(w.eaddrs[o.R]), coin)
+		}
+		return w.route(ctx, &evmutiltypes.MsgConvertCosmosCoinToERC20{Initiator: w.addrs[o.I].String(), Receiver: w.eaddrs[o.R].Hex(), Amount: &coin})
+	case "e2cos":
+		coin := sdk.Coin{Denom: denoms[o.D], Amount: sdkmath.NewIntFromBigInt(x)}
+		if o.Direct {
+			return w.k.ConvertCosmosCoinFromERC20(ctx, iaddr(w.eaddrs[o.I]), w.addrs[o.R], coin)
+		}
+		return w.route(ctx, &evmutiltypes.MsgConvertCosmosCoinFromERC20{Initiator: w.eaddrs[o.I].Hex(), Receiver: w.addrs[o.R].String(), Amount: &coin})
+	case "xfer":
+		// a plain ERC20 transfer by the holder (msg.sender = from)
+		_, err := w.k.CallEVM(ctx, erc, w.eaddrs[o.I], w.contractAddr(o.C), "transfer", w.eaddrs[o.R], x)
+		return err
+	case "mint":
+		// the owner of an EVM-native token mints; the wrappers are owned by the module,
+		// so nobody else can mint them (the attempt comes from user 0)
+		from := evmutiltypes.ModuleEVMAddress
+		if o.C >= nPair && o.C < len(w.ctr) {
+			from = w.eaddrs[0]
+		}
+		_, err := w.k.CallEVM(ctx, erc, from, w.contractAddr(o.C), "mint", w.eaddrs[o.R], x)
+		return err
+	case "approve":
+		_, err := w.k.CallEVM(ctx, erc, w.eaddrs[o.I], w.contractAddr(o.C), "approve", w.eaddrs[o.R], x)
+		return err
+	case "xferfrom":
+		_, err := w.k.CallEVM(ctx, erc, w.eaddrs[o.I], w.contractAddr(o.C), "transferFrom", w.eaddrs[o.F], w.eaddrs[o.R], x)
+		return err
+	case "send":
+		return w.route(ctx, &banktypes.MsgSend{FromAddress: w.addrs[o.I].String(), ToAddress: w.addrs[o.R].String(),
+			Amount: sdk.Coins{sdk.Coin{Denom: denoms[o.D], Amount: sdkmath.NewIntFromBigInt(x)}}})
+	case "params":
+		if o.Direct && rawInvalid(o) == "" {
+			// Keeper.SetParams -> Subspace.SetParamSet runs the same validators and panics on a value
+			// they refuse; it is only ever called with validated values (genesis, migrations), so only
+			// well-formed proposals take this path here
+			w.k.SetParams(ctx, evmutiltypes.NewParams(w.rawPairs(o.Ps), rawToks(o.Ts)))
 			return nil
 		}
-		panic("unknown op kind " + o.Kind)
+		return w.proposeParams(ctx, o.Ps, o.Ts)
+	}
+	panic("unknown op kind " + o.Kind)
+}
+
+// exec runs the messages of one history step atomically, like a transaction: one cached
+// context, written only if every message succeeded.  after(k, before, after) is called with the
+// observations around every message that succeeded (taken on the cached context).
+// failedAt is the index of the message that failed (-1: none).
+func (w *world) exec(o op, start *snap, each func(ctx sdk.Context, k int, m op, before, after *snap)) (cls Class, err error, failedAt int, last *snap) {
+	n0 := len(w.ctr)
+	failedAt = -1
+	last = start
+	cls, err = Atomically(w.ctx, func(ctx sdk.Context) error {
+		for k, m := range o.msgs() {
+			failedAt = k
+			if e := w.execMsg(ctx, m); e != nil {
+				return e
+			}
+			after := w.snapshot(ctx)
+			if each != nil {
+				each(ctx, k, m, last, after)
+			}
+			last = after
+		}
+		failedAt = -1
+		return nil
 	})
 	if cls != ClassOk {
-		w.enabled, w.allowed = enBefore, alBefore
+		w.forget(n0)
 	}
-	return cls, err
+	return
 }
 
 // ------------------------------------------------------------ generation
@@ -166,15 +270,18 @@ type gen struct {
 
 func (g *gen) user() int { return g.r.Intn(nUsers) }
 
-// anyAcc picks a receiver: mostly users, sometimes the module or the blocked module account
+// anyAcc picks a receiver: mostly users, sometimes the module, the blocked module account or
+// the zero address
 func (g *gen) anyAcc() int {
-	switch g.r.Pick(80, 10, 10) {
+	switch g.r.Pick(73, 9, 9, 9) {
 	case 0:
 		return g.user()
 	case 1:
 		return accM
-	default:
+	case 2:
 		return accHard
+	default:
+		return accZero
 	}
 }
 
@@ -270,22 +377,100 @@ func (g *gen) amount(avail *big.Int, unit *big.Int, allowNeg bool) *big.Int {
 
 func (g *gen) denomOf(list []int) int { return list[g.r.Intn(len(list))] }
 
+func (g *gen) ercBal(c int) func(a int) *big.Int {
+	return func(a int) *big.Int {
+		if c >= 0 && c < g.s.n {
+			return g.s.erc[c][a]
+		}
+		return big.NewInt(0)
+	}
+}
+
+// firstCos2e: a conversion of an allowed cosmos denom that has no wrapper yet (it would deploy
+// one), by a holder; ok=false when there is no such denom
+func (g *gen) firstCos2e() (op, bool) {
+	s := g.s
+	var cand []int
+	for _, d := range s.allowed {
+		if s.reg[d] < 0 {
+			for a := 0; a < nUsers; a++ {
+				if s.bal[a][d].Sign() > 0 {
+					cand = append(cand, d)
+					break
+				}
+			}
+		}
+	}
+	if len(cand) == 0 {
+		return op{}, false
+	}
+	o := op{Kind: "cos2e", Direct: g.r.Chance(1, 5)}
+	o.D = g.denomOf(cand)
+	o.I = g.holder(func(a int) *big.Int { return s.bal[a][o.D] })
+	o.R = g.user()
+	x := new(big.Int).Div(s.bal[o.I][o.D], big.NewInt(int64(2+g.r.Intn(4))))
+	if x.Sign() == 0 {
+		x.SetInt64(1)
+	}
+	o.X = x.String()
+	return o, true
+}
+
+// failing: an operation that is refused whatever the state: a dust-only conversion of a bep3
+// pair, a conversion of a denom nobody may convert, an ERC20 mint to the zero address
+func (g *gen) failing() op {
+	switch g.r.Intn(3) {
+	case 0:
+		return op{Kind: "e2c", I: g.user(), R: g.user(), C: 0, X: fmt.Sprint(1 + g.r.Int63n(9_999_999_998))}
+	case 1:
+		return op{Kind: "c2e", I: g.user(), R: g.user(), D: 6, X: "1"}
+	default:
+		return op{Kind: "mint", C: 1, R: accZero, X: "5"}
+	}
+}
+
 func (g *gen) next() op {
-	r, s, w := g.r, g.s, g.w
+	r := g.r
 	// round trip: the inverse of the last successful conversion
 	if g.last != nil && r.Chance(1, 3) {
-		if inv, ok := inverseOf(*g.last, g.lastSnap, s); ok {
+		if inv, ok := inverseOf(*g.last, g.lastSnap); ok {
 			return inv
 		}
 	}
-	switch r.Pick(14, 20, 17, 14, 10, 10, 8, 7) {
+	// the first conversion of a cosmos denom (the one that deploys the wrapper) made to fail after
+	// the deployment: the receiver is the zero address, or a later message of the same transaction
+	// fails; the ordinary conversion of the same denom usually follows a few steps later
+	if r.Chance(1, 9) {
+		if o, ok := g.firstCos2e(); ok {
+			if r.Chance(1, 2) {
+				o.R = accZero
+				return o
+			}
+			return op{Kind: "tx", Sub: []op{o, g.failing()}}
+		}
+	}
+	if r.Chance(1, 16) {
+		// a transaction of several messages
+		n := 2 + r.Intn(2)
+		t := op{Kind: "tx"}
+		for k := 0; k < n; k++ {
+			t.Sub = append(t.Sub, g.single())
+		}
+		return t
+	}
+	return g.single()
+}
+
+func (g *gen) single() op {
+	r, s := g.r, g.s
+	switch r.Pick(12, 18, 15, 12, 8, 8, 5, 8, 6, 8) {
 	case 0: // coin -> ERC20 (EVM-native pair)
 		o := op{Kind: "c2e", Direct: r.Chance(1, 5)}
-		o.D = g.denomOf([]int{0, 0, 2, 2, 1, 3, 6})
+		o.D = g.denomOf([]int{0, 0, 2, 2, 1, 3, 6, denRfnd})
 		if r.Chance(4, 5) { // a pair denom somebody holds
 			var held []int
 			for c := 0; c < nPair; c++ {
-				if w.enabled[c] || r.Chance(1, 6) {
+				if s.denomOfCtr(c) >= 0 || r.Chance(1, 6) {
 					for a := 0; a < nUsers; a++ {
 						if s.bal[a][pairDenom[c]].Sign() > 0 {
 							held = append(held, pairDenom[c])
@@ -301,9 +486,9 @@ func (g *gen) next() op {
 		if r.Chance(1, 6) {
 			// a bank denom that only looks like a pair denom (case / prefix / suffix variant),
 			// preferably of an enabled pair whose tokens are already locked in the module
-			c := r.Intn(nPair)
-			for k := 0; k < nPair; k++ {
-				if w.enabled[k] && s.erc[k][accM].Sign() > 0 && r.Chance(2, 3) {
+			c := r.Intn(3)
+			for k := 0; k < 3; k++ {
+				if s.denomOfCtr(k) >= 0 && s.erc[k][accM].Sign() > 0 && r.Chance(2, 3) {
 					c = k
 				}
 			}
@@ -311,45 +496,43 @@ func (g *gen) next() op {
 		}
 		o.I = g.holder(func(a int) *big.Int { return s.bal[a][o.D] })
 		o.R = g.anyAcc()
-		if o.D >= firstLook && r.Chance(3, 4) {
+		if isLook(o.D) && r.Chance(3, 4) {
 			o.R = g.user()
 		}
 		o.X = g.amount(s.bal[o.I][o.D], big.NewInt(1), !o.Direct).String()
+		if o.D == denRfnd && r.Chance(2, 3) {
+			// nobody holds a coin of the adversarial pair's denom: only the keeper called with amount 0
+			// gets as far as the ERC20 transfer
+			o.Direct, o.X, o.R = true, "0", g.user()
+		}
 		return o
 	case 1: // ERC20 -> coin (EVM-native pair)
 		o := op{Kind: "e2c", Direct: r.Chance(1, 5)}
-		o.C = []int{0, 0, 0, 0, 1, 1, 1, 2, 2, 2, 3, 9}[r.Intn(12)]
-		if !(o.C < nPair && w.enabled[o.C]) && r.Chance(2, 3) {
-			var en []int
-			for c := 0; c < nPair; c++ {
-				if w.enabled[c] {
-					en = append(en, c)
-				}
-			}
-			if len(en) > 0 {
-				o.C = g.denomOf(en)
+		o.C = []int{0, 0, 0, 0, 1, 1, 1, 2, 2, 2, 3, 3, 4, 9, noCodeBase}[r.Intn(15)]
+		if s.denomOfCtr(o.C) < 0 && r.Chance(2, 3) {
+			if len(s.pairs) > 0 {
+				o.C = s.pairs[r.Intn(len(s.pairs))][0]
 			}
 		}
-		bal := func(a int) *big.Int {
-			if o.C < s.n {
-				return s.erc[o.C][a]
-			}
-			return big.NewInt(0)
-		}
+		bal := g.ercBal(o.C)
 		o.I = g.holder(bal)
 		o.R = g.anyAcc()
 		if o.Direct && r.Chance(1, 3) {
 			// the keeper called with the module's own EVM address as initiator (no transaction can
 			// do that): only the balance-delta check of LockERC20Tokens stands in the way
 			o.I = accM
-			for c := 0; c < nPair; c++ {
-				if w.enabled[c] && s.erc[c][accM].Sign() > 0 && r.Chance(2, 3) {
-					o.C = c
+			for _, p := range s.pairs {
+				if p[0] < s.n && s.erc[p[0]][accM].Sign() > 0 && r.Chance(2, 3) {
+					o.C = p[0]
 				}
 			}
+			bal = g.ercBal(o.C)
+		}
+		if o.Direct && r.Chance(1, 12) {
+			o.I = accZero // transfer from the zero address reverts
 		}
 		unit := big.NewInt(1)
-		if o.C < nPair && isBep3[pairDenom[o.C]] {
+		if d := s.denomOfCtr(o.C); d >= 0 && isBep3[d] {
 			unit = k10
 		}
 		o.X = g.amount(bal(o.I), unit, !o.Direct).String()
@@ -357,22 +540,14 @@ func (g *gen) next() op {
 	case 2: // cosmos coin -> wrapper ERC20
 		o := op{Kind: "cos2e", Direct: r.Chance(1, 5)}
 		o.D = g.denomOf([]int{3, 3, 3, 4, 4, 5, 5, 6, 0})
-		if !w.allowed[o.D] && r.Chance(2, 3) {
-			var al []int
-			for d := 0; d < nDenom; d++ {
-				if w.allowed[d] {
-					al = append(al, d)
-				}
-			}
-			if len(al) > 0 {
-				o.D = g.denomOf(al)
-			}
+		if !s.isAllowed(o.D) && r.Chance(2, 3) && len(s.allowed) > 0 {
+			o.D = g.denomOf(s.allowed)
 		}
 		if r.Chance(1, 8) {
 			// a look-alike of a denom on the allow list
 			var al []int
-			for d := 0; d < nRealDen; d++ {
-				if w.allowed[d] && len(lookalikes[d]) > 0 {
+			for _, d := range s.allowed {
+				if len(lookalikes[d]) > 0 {
 					al = append(al, d)
 				}
 			}
@@ -419,6 +594,9 @@ func (g *gen) next() op {
 		}
 		o.I = g.holder(bal)
 		o.R = g.anyAcc()
+		if o.Direct && r.Chance(1, 12) {
+			o.I = accZero // burn from the zero address reverts
+		}
 		o.X = g.amount(bal(o.I), big.NewInt(1), !o.Direct).String()
 		return o
 	case 4: // plain ERC20 transfer between holders (also to the module address)
@@ -427,12 +605,7 @@ func (g *gen) next() op {
 		if r.Chance(1, 20) {
 			o.C = s.n + r.Intn(2) // no code at that address
 		}
-		bal := func(a int) *big.Int {
-			if o.C < s.n {
-				return s.erc[o.C][a]
-			}
-			return big.NewInt(0)
-		}
+		bal := g.ercBal(o.C)
 		o.I = g.holder(bal)
 		o.R = g.anyAcc()
 		x := g.amount(bal(o.I), big.NewInt(1), true)
@@ -443,9 +616,12 @@ func (g *gen) next() op {
 		return o
 	case 5: // the owner of an EVM-native token mints
 		o := op{Kind: "mint"}
-		o.C = []int{0, 0, 1, 2, 2}[r.Intn(5)]
+		o.C = []int{0, 0, 1, 2, 2, 3}[r.Intn(6)]
 		if r.Chance(1, 10) {
 			o.C = r.Intn(s.n + 1)
+		}
+		if s.n > nPair && r.Chance(1, 12) {
+			o.C = nPair + r.Intn(s.n-nPair) // a wrapper: only the module may mint it
 		}
 		o.R = g.anyAcc()
 		x := new(big.Int)
@@ -457,10 +633,13 @@ func (g *gen) next() op {
 			x.Add(x, big.NewInt(int64(r.Intn(3))))
 		case 2:
 			x.SetInt64(r.Int63n(300_000_000_000))
-		case 3: // makes the total supply overflow or come close
+		case 3: // makes the total supply (the balance, for the token without one) overflow or come close
 			x = r.BigBits(256)
 			if o.C < s.n && r.Chance(1, 2) {
 				x.Sub(u256, s.tot[o.C])
+				if isEvil(o.C) {
+					x.Sub(u256, s.erc[o.C][o.R])
+				}
 				x.Sub(x, big.NewInt(int64(r.Intn(3))))
 			}
 		default:
@@ -471,7 +650,7 @@ func (g *gen) next() op {
 	case 6: // bank MsgSend
 		o := op{Kind: "send"}
 		o.D = r.Intn(nDenom)
-		if o.D >= firstLook && r.Chance(1, 2) {
+		if isLook(o.D) && r.Chance(1, 2) {
 			o.D = r.Intn(nRealDen)
 		}
 		o.I = g.holder(func(a int) *big.Int { return s.bal[a][o.D] })
@@ -481,31 +660,257 @@ func (g *gen) next() op {
 		}
 		o.X = g.amount(s.bal[o.I][o.D], big.NewInt(1), true).String()
 		return o
-	default: // governance changes the allow lists
-		o := op{Kind: "params"}
-		o.En = append([]bool(nil), w.enabled...)
-		o.Al = append([]bool(nil), w.allowed...)
+	case 7: // a governance parameter-change proposal
+		return g.params()
+	case 8: // approve
+		o := op{Kind: "approve"}
+		o.C = r.Intn(s.n)
+		if r.Chance(1, 20) {
+			o.C = s.n + r.Intn(2)
+		}
+		bal := g.ercBal(o.C)
+		o.I = g.holder(bal)
+		o.R = g.anyAcc()
 		if r.Chance(1, 2) {
-			c := r.Intn(nPair)
-			if o.En[c] && r.Chance(1, 2) { // lean towards enabling
-				for k := 0; k < nPair; k++ {
-					if !o.En[k] {
-						c = k
+			o.R = g.user()
+		}
+		x := g.amount(bal(o.I), big.NewInt(1), true)
+		if r.Chance(1, 4) {
+			x.Set(maxU256) // the "infinite" allowance
+		}
+		o.X = x.String()
+		return o
+	default: // transferFrom
+		o := op{Kind: "xferfrom"}
+		o.C = r.Intn(s.n)
+		if r.Chance(1, 25) {
+			o.C = s.n + r.Intn(2)
+		}
+		o.I, o.F, o.R = g.user(), g.user(), g.anyAcc()
+		if o.C < s.n {
+			// a spender that holds an allowance
+			type pr struct{ f, sp int }
+			var have []pr
+			for f := 0; f < nAcc; f++ {
+				for sp := 0; sp < nUsers; sp++ {
+					if s.allow[o.C][f][sp].Sign() > 0 {
+						have = append(have, pr{f, sp})
 					}
 				}
 			}
-			o.En[c] = !o.En[c]
-		} else {
-			d := []int{3, 4, 5, 0}[r.Pick(4, 4, 4, 1)]
-			o.Al[d] = !o.Al[d]
+			if len(have) > 0 && r.Chance(3, 4) {
+				p := have[r.Intn(len(have))]
+				for _, q := range have { // lean towards an infinite allowance over a funded account
+					if eq(s.allow[o.C][q.f][q.sp], maxU256) && s.erc[o.C][q.f].Sign() > 0 && r.Chance(1, 2) {
+						p = q
+					}
+				}
+				o.F, o.I = p.f, p.sp
+			}
 		}
+		if r.Chance(1, 4) {
+			// an attempt to pull the tokens locked in the module's EVM address
+			o.F = accM
+			var locked []int
+			for c := 0; c < nPair && c < s.n; c++ {
+				if s.erc[c][accM].Sign() > 0 {
+					locked = append(locked, c)
+				}
+			}
+			if len(locked) > 0 {
+				o.C = g.denomOf(locked)
+			}
+			if r.Chance(1, 2) {
+				o.R = o.I
+			}
+		}
+		avail := big.NewInt(0)
+		if o.C < s.n {
+			avail = new(big.Int).Set(s.allow[o.C][o.F][o.I])
+			if s.erc[o.C][o.F].Cmp(avail) < 0 || r.Chance(1, 4) {
+				avail.Set(s.erc[o.C][o.F])
+			}
+		}
+		x := g.amount(avail, big.NewInt(1), true)
+		if avail.Sign() > 0 && r.Chance(1, 2) {
+			// an amount the allowance and the balance cover
+			x.SetInt64(0)
+			if lim := new(big.Int).Set(s.allow[o.C][o.F][o.I]); lim.Sign() > 0 {
+				if s.erc[o.C][o.F].Cmp(lim) < 0 {
+					lim.Set(s.erc[o.C][o.F])
+				}
+				if lim.Sign() > 0 {
+					x.Mul(lim, big.NewInt(int64(1+r.Intn(10))))
+					x.Div(x, big.NewInt(10))
+				}
+			}
+		}
+		o.X = x.String()
 		return o
 	}
 }
 
+// params builds a proposal from the parameters in force: one pair or one token toggled, and, one
+// time in three, a malformation that the validators of the parameter-change path must refuse.
+func (g *gen) params() op {
+	r, s := g.r, g.s
+	o := op{Kind: "params", Ps: []praw{}, Ts: []traw{}, Direct: g.r.Chance(1, 4)}
+	for _, p := range s.pairs {
+		o.Ps = append(o.Ps, praw{K: "ctr", C: p[0], D: p[1]})
+	}
+	for _, d := range s.allowed {
+		o.Ts = append(o.Ts, traw{D: d, Name: true, Sym: d, Dec: true})
+	}
+	if r.Chance(1, 2) {
+		c := r.Intn(nPair)
+		if s.denomOfCtr(c) >= 0 && r.Chance(1, 2) { // lean towards enabling
+			for k := 0; k < nPair; k++ {
+				if s.denomOfCtr(k) < 0 {
+					c = k
+				}
+			}
+		}
+		if s.denomOfCtr(c) >= 0 {
+			var keep []praw
+			for _, p := range o.Ps {
+				if p.C != c {
+					keep = append(keep, p)
+				}
+			}
+			o.Ps = append([]praw{}, keep...)
+		} else {
+			e := praw{K: "ctr", C: c, D: pairDenom[c]}
+			at := r.Intn(len(o.Ps) + 1)
+			o.Ps = append(o.Ps[:at], append([]praw{e}, o.Ps[at:]...)...)
+		}
+	} else {
+		d := []int{3, 4, 5, 0}[r.Pick(4, 4, 4, 1)]
+		if s.isAllowed(d) {
+			var keep []traw
+			for _, t := range o.Ts {
+				if t.D != d {
+					keep = append(keep, t)
+				}
+			}
+			o.Ts = append([]traw{}, keep...)
+		} else {
+			o.Ts = append(o.Ts, traw{D: d, Name: true, Sym: d, Dec: true})
+		}
+	}
+	if !r.Chance(1, 3) {
+		return o
+	}
+	insertP := func(e praw) {
+		at := r.Intn(len(o.Ps) + 1)
+		o.Ps = append(o.Ps[:at], append([]praw{e}, o.Ps[at:]...)...)
+	}
+	insertT := func(e traw) {
+		at := r.Intn(len(o.Ts) + 1)
+		o.Ts = append(o.Ts[:at], append([]traw{e}, o.Ts[at:]...)...)
+	}
+	kind := r.Intn(12)
+	if len(o.Ps) == 0 && kind <= 2 {
+		kind = 3 + r.Intn(3)
+	}
+	if len(o.Ts) == 0 && (kind == 6 || kind == 7) {
+		kind = 8 + r.Intn(4)
+	}
+	switch kind {
+	case 0: // the same pair twice
+		insertP(o.Ps[r.Intn(len(o.Ps))])
+	case 1: // a second contract under a denom that is already the denom of a pair
+		e := o.Ps[r.Intn(len(o.Ps))]
+		var other []int
+		for c := 0; c < nPair; c++ {
+			if c != e.C {
+				other = append(other, c)
+			}
+		}
+		other = append(other, noCodeBase+r.Intn(3))
+		c2 := g.denomOf(other)
+		// the other contract leaves its own entry, so that only the denom is double
+		var keep []praw
+		for _, p := range o.Ps {
+			if p.C != c2 {
+				keep = append(keep, p)
+			}
+		}
+		o.Ps = append([]praw{}, keep...)
+		insertP(praw{K: "ctr", C: c2, D: e.D})
+	case 2: // a contract that is already the contract of a pair, under a second denom
+		e := o.Ps[r.Intn(len(o.Ps))]
+		d2 := []int{6, 4, pairDenom[(e.C+1)%nPair]}[r.Intn(3)]
+		var keep []praw
+		for _, p := range o.Ps {
+			if p.D != d2 {
+				keep = append(keep, p)
+			}
+		}
+		o.Ps = append([]praw{}, keep...)
+		insertP(praw{K: "ctr", C: e.C, D: d2})
+	case 3:
+		insertP(praw{K: "zero", D: 6})
+	case 4:
+		insertP(praw{K: "short", C: noCodeBase + r.Intn(3), D: 6})
+	case 5:
+		insertP(praw{K: "ctr", C: noCodeBase + r.Intn(3), D: -1 - r.Intn(len(invalidDenoms))})
+	case 6: // a token denom twice (under another symbol)
+		e := o.Ts[r.Intn(len(o.Ts))]
+		insertT(traw{D: e.D, Name: true, Sym: 6, Dec: true})
+	case 7: // a symbol twice
+		e := o.Ts[r.Intn(len(o.Ts))]
+		d2 := 6
+		insertT(traw{D: d2, Name: true, Sym: e.Sym, Dec: true})
+	case 8:
+		insertT(traw{D: 6, Name: false, Sym: 6, Dec: true})
+	case 9:
+		insertT(traw{D: 6, Name: true, Sym: -1, Dec: true})
+	case 10:
+		insertT(traw{D: 6, Name: true, Sym: 6, Dec: false})
+	default:
+		insertT(traw{D: -1 - r.Intn(len(invalidDenoms)), Name: true, Sym: 6, Dec: true})
+	}
+	return o
+}
+
+// rawInvalid says why a proposed value is malformed ("" when it is well-formed and duplicate-free):
+// the statement of the property about parameter changes, on the generator's own description.
+func rawInvalid(o op) string {
+	seenC, seenD := map[int]bool{}, map[int]bool{}
+	for _, p := range o.Ps {
+		if p.K != "ctr" {
+			return "pair address " + p.K
+		}
+		if p.D < 0 {
+			return "pair denom invalid"
+		}
+		if seenC[p.C] {
+			return "pair address twice"
+		}
+		if seenD[p.D] {
+			return "pair denom twice"
+		}
+		seenC[p.C], seenD[p.D] = true, true
+	}
+	seenT, seenS := map[int]bool{}, map[int]bool{}
+	for _, t := range o.Ts {
+		if t.D < 0 || !t.Name || t.Sym < 0 || !t.Dec {
+			return "token malformed"
+		}
+		if seenT[t.D] {
+			return "token denom twice"
+		}
+		if seenS[t.Sym] {
+			return "token symbol twice"
+		}
+		seenT[t.D], seenS[t.Sym] = true, true
+	}
+	return ""
+}
+
 // inverseOf builds the operation that undoes a successful conversion, when
-// both parties are users (module accounts cannot sign).
-func inverseOf(o op, before, after *snap) (op, bool) {
+// both parties are users (module accounts cannot sign).  before: the state the conversion ran in.
+func inverseOf(o op, before *snap) (op, bool) {
 	if o.I >= nUsers || o.R >= nUsers {
 		return op{}, false
 	}
@@ -516,12 +921,7 @@ func inverseOf(o op, before, after *snap) (op, bool) {
 	case "e2cos":
 		return op{Kind: "cos2e", I: o.R, R: o.I, D: o.D, X: o.X, Direct: o.Direct}, true
 	case "c2e":
-		c := -1
-		for p := 0; p < nPair; p++ {
-			if pairDenom[p] == o.D {
-				c = p
-			}
-		}
+		c := before.pairOfDenom(o.D)
 		if c < 0 {
 			return op{}, false
 		}
@@ -531,10 +931,10 @@ func inverseOf(o op, before, after *snap) (op, bool) {
 		}
 		return op{Kind: "e2c", I: o.R, R: o.I, C: c, X: y.String(), Direct: o.Direct}, true
 	case "e2c":
-		if o.C >= nPair {
+		d := before.denomOfCtr(o.C)
+		if d < 0 {
 			return op{}, false
 		}
-		d := pairDenom[o.C]
 		y := new(big.Int).Set(x)
 		if isBep3[d] {
 			y.Div(y, k10)
